@@ -162,7 +162,10 @@ let emit (id : string) (_stream : string)
             | Hist.OCollapse oo, Hist.OCollapse _ when pop = op ->
               let d = Options.with_defaults cls (match oo with Some x -> x | None -> prevrecv.opts) in
               Printf.printf "%s V C07 %d %s %s idem\n" id k (b2s (Layout.guard_C07 cls prevrecv.text d Z0)) (b2s (o.text = pout.text))
-            | Hist.OInsert (_, x), Hist.ODelete _ ->
+            | Hist.OInsert (p, x), Hist.ODelete (ds, de)
+              when (let n = z_of_int (Stdlib.List.length (Segment.clusters cls (Utf8.decode prevrecv.text))) in
+                    let p' = Common.norm1 n p in
+                    ds = p' && de = BinInt.Z.add p' (z_of_int (Stdlib.List.length (Segment.clusters cls (Utf8.decode x))))) ->
               let cl t = Segment.clusters cls (Utf8.decode t) in
               let before = Stdlib.List.length (cl prevrecv.text) in
               let g = Utf8.valid_utf8 prevrecv.text && Utf8.valid_utf8 x
